@@ -163,7 +163,7 @@ func runOne(c *bcase, schedule string) fetchEvent {
 	// a source the driver never hands to the Fetcher, or a fetch that never returns, must not hang the run:
 	// the controller then opens every gate and the observation is reported
 	giveUp := func(x gi, what string) {
-		run.Violate("fetch", "fetch-"+what, fmt.Sprintf("source %v %s within 5 s (schedule %s)", x, what, schedule), c, nil)
+		run.Violate("fetch", "fetch-"+what, fmt.Sprintf("source %v %s within 30 s (schedule %s)", x, what, schedule), c, nil)
 		mu.Lock()
 		defer mu.Unlock()
 		for _, ch := range release {
@@ -179,7 +179,7 @@ func runOne(c *bcase, schedule string) fetchEvent {
 			listed[x] = true
 			select {
 			case <-started[x]:
-			case <-time.After(5 * time.Second):
+			case <-time.After(30 * time.Second):
 				giveUp(x, "never-requested")
 				return
 			}
@@ -192,7 +192,7 @@ func runOne(c *bcase, schedule string) fetchEvent {
 			mu.Unlock()
 			select {
 			case <-finished[x]:
-			case <-time.After(5 * time.Second):
+			case <-time.After(30 * time.Second):
 				giveUp(x, "never-returned")
 				return
 			}
